@@ -1023,13 +1023,15 @@ SyntaxVisitor::Action TypeChecker::visitConstantExpression(const ConstantExpress
         case Lexeme::LexemeKind::CharacterConstant:
             switch (constantTk->asCharacterConstant()->encodingPrefix()) {
                 case CharacterConstant::EncodingPrefix::None:
-                    ty = semaModel_->compilation()->canonicalBasicType(BasicTypeKind::Char_U);
+                    // An integer character constant has type int (6.4.4.4-10).
+                    ty = semaModel_->compilation()->canonicalBasicType(BasicTypeKind::Int_S);
                     break;
                 case CharacterConstant::EncodingPrefix::u:
                     ty = char16Ty_;
                     break;
                 case CharacterConstant::EncodingPrefix::U:
                     ty = char32Ty_;
+                    break;
                 case CharacterConstant::EncodingPrefix::L:
                     ty = wcharTy_;
                     break;
